@@ -1,5 +1,6 @@
 import ParolModel.Generated.ScannerConsts
 import ParolModel.Proofs.Comments
+import ParolModel.Proofs.Kmp
 /-! # C15 — Comment tokens end exactly at the first end delimiter
 
 "For every comment delimiter pair parol accepts and every input, a block comment token runs from
@@ -71,6 +72,21 @@ theorem longest_unique (r : Re) (s e : List Nat)
   rcases Nat.le_total n m with hle | hle
   · exact key n m hle hm h1 h2
   · exact (key m n hle hn h2 h1).symm
+
+/-- The specification automaton means what the property says: it accepts exactly the valid texts
+    `s ++ z` in which `e` is a suffix of `z` and of no proper prefix of `z` — the first occurrence of
+    the end delimiter after the start delimiter (not overlapping it) is at the very end. -/
+theorem firstEnd_spec (s e : List Nat) (he : e ≠ []) (w : List Nat) :
+    (firstEndDfa s e).accepts w = true ↔ FirstEnd s e w := firstEndDfa_accepts_iff s e he w
+
+/-- "…runs from its start delimiter to the first subsequent occurrence of its end delimiter": if the
+    regex has the language of the specification automaton, then whatever prefix of the input it
+    matches is a block comment in the sense of `FirstEnd`, and (by `longest_unique`) no other
+    prefix matches. -/
+theorem match_is_first_end (r : Re) (s e : List Nat) (he : e ≠ [])
+    (h : ∀ w, matchesRe r w = (firstEndDfa s e).accepts w) (w : List Nat) (n : Nat)
+    (hm : matchesRe r (w.take n) = true) : FirstEnd s e (w.take n) := by
+  rw [h] at hm; exact (firstEndDfa_accepts_iff s e he _).mp hm
 
 theorem checkCase_sound (c : BlockCase) (h : checkCase c = true) : BlockOk c :=
   ParolModel.re_equiv_sound c.re _ (firstEndDfa_respects c.s c.e) _ h
